@@ -4,6 +4,9 @@
                                                     judged; the model is fed the observed mapping)
    (json <topo> #json1 <tree1> <topo2> #json2 #json3)  ToJSON / json.Unmarshal / ToJSON / ... 
    (parse <topo> <legacy view>)                     rawpanelhelpers.ParseTopology(ToJSON())
+   (c14big n seq seed types_before types_after components changed duplicates zero_key)
+                                                    RandomizeTypes with tens of thousands of types:
+                                                    relation evaluated by the harness, numbers judged here
    Topologies are generic values of the REGENERATED schema printed by reflection (map entries
    in key-string order). *)
 From RP Require Import Lib.Base Lib.Sexp Lib.Strings Lib.JsonTree Gen.TopoSchema Model.Topo
@@ -117,6 +120,16 @@ Definition run_case (s : sexp) : sexp :=
         else v_specfail "c14-parse-legacy" (L [L (map legacy_hwc (tpHWc t)); L (map legacy_entry (tpIndex t))])
       | _, _ => v_badcase
       end
+    else v_badcase
+  | L [S n; I nn; I sq; I _; I tb; I ta; I comps; I changed; I dup; I zero] =>
+    (* many types: the relation was computed by the harness (too large for the association-list
+       model); judged here: type count kept, no resolved definition / component changed, no two
+       old ids on one new id (sequential: no id outside 1..n).  Random mode with key 0 handed
+       out: outside the theorem's hypothesis (observation), not judged. *)
+    if bytes_eqb n (str "c14big") then
+      if (sq =? 0) && negb (zero =? 0) then v_ok false
+      else if (ta =? tb) && (changed =? 0) && (dup =? 0) then v_ok (0 <? tb)
+      else v_specfail "c14-renumber-big" (L [I nn; I sq; I tb; I ta; I comps; I changed; I dup])
     else v_badcase
   | L [S n; I sq; tv; tv'] =>
     if bytes_eqb n (str "rand") then
